@@ -8,7 +8,15 @@ def build_replay_bin():
     """(re)build the replay crate against /repo's current working tree"""
     env = dict(os.environ, CARGO_NET_OFFLINE='true', CARGO_TARGET_DIR=os.path.join(ROOT, 'build', 'replay-target'))
     lock = os.path.join(ROOT, 'replay', 'Cargo.lock')
-    r = subprocess.run(['cargo', 'build', '--offline', '-q'], cwd=os.path.join(ROOT, 'replay'), env=env, capture_output=True, text=True)
+    r = subprocess.run(['cargo', 'build', '--offline', '-q', '--bin', 'replay'], cwd=os.path.join(ROOT, 'replay'), env=env, capture_output=True, text=True)
+    return r.returncode == 0, r.stderr[-2000:]
+
+STEPS_BIN = os.path.join(ROOT, 'build', 'replay-target', 'debug', 'steps')
+def build_steps_bin():
+    """the step-level schedule driver implements the public Cache trait, so it is a separate binary: a change to
+    that trait stops only this driver from building"""
+    env = dict(os.environ, CARGO_NET_OFFLINE='true', CARGO_TARGET_DIR=os.path.join(ROOT, 'build', 'replay-target'))
+    r = subprocess.run(['cargo', 'build', '--offline', '-q', '--bin', 'steps'], cwd=os.path.join(ROOT, 'replay'), env=env, capture_output=True, text=True)
     return r.returncode == 0, r.stderr[-2000:]
 
 def run_session(lines, timeout=60):
@@ -57,7 +65,7 @@ def replay(path):
         still = ('VIOLATION property=%s' % doc['property']) in r.stdout
         print('obligation still fails on the current tree:', still)
         return 1 if still else 0
-    ok, err = build_replay_bin()
+    ok, err = build_steps_bin() if w.get('kind') == 'steps' else build_replay_bin()
     if not ok:
         print('replay crate does not build:', err); return 2
     res = witness.run_witness(w)
